@@ -41,7 +41,7 @@ def _run_cases(chk, cases, r, tier, stats, label, op_obs="OBS"):
         cmds = _commands(r, case, tier, op_obs)
 
         def on_crash(cmd, rr, case=case):
-            key = viewcorr.crash_key(rr, cmd)
+            key = viewcorr.crash_key(rr, cmd, case)
             stats["crash:" + key] += 1
             chk.violation("input", {"module": case.text, "case": case.name, "build": label, "command": cmd,
                                     "observed": "%s: %s" % (rr.kind, (rr.err or "")[:1500]),
@@ -98,7 +98,7 @@ def _run(chk, tier):
             for k, c, cmds in pinned:
                 for cmd in cmds:
                     rr, _out = cppdrv.ask(c.binary, [cmd])
-                    if rr.kind in ("sanitizer", "check-failed", "crash") and viewcorr.crash_key(rr, cmd) == k["key"]:
+                    if rr.kind in ("sanitizer", "check-failed", "crash") and viewcorr.crash_key(rr, cmd, c) == k["key"]:
                         chk.report_known(k)
                         break
         _run_cases(chk, cases, common.rng("C04-" + label), tier, stats, label, op_obs)
